@@ -27,8 +27,17 @@ var earlyTable = []earlyT{
 	{"a: { break a; }", "accept", "-", "12.8"},
 	{"a: { break b; }", "reject", "-", "12.8: label not in the label set"},
 	{"a: while(1){ continue a; }", "accept", "-", "12.7"},
-	{"a: { while(1){ continue a; } }", "reject", "continue_non_iteration_label", "12.7: the label must belong to an enclosing IterationStatement"},
+	{"a: { while(1){ continue a; } }", "reject", "-", "12.7: the label must belong to an enclosing IterationStatement"},
 	{"a: while(1){ (function(){ break a; }); }", "reject", "-", "12.8: label sets do not cross function boundaries"},
+	{"a: b: for(;;){ continue a; }", "accept", "-", "12.7 / 12.12: a and b are in the label set of the loop"},
+	{"a: b: for(;;){ continue b; }", "accept", "-", "12.7"},
+	{"a: b: c: do { continue a; } while (0)", "accept", "-", "12.7"},
+	{"a: if (1) for(;;){ continue a; }", "reject", "-", "12.7: a labels the if statement"},
+	{"a: switch (1) { case 1: for(;;){ continue a; } }", "reject", "-", "12.7"},
+	{"a: for(;;){ b: { continue a; } }", "accept", "-", "12.7"},
+	{"a: for(;;){ b: { continue b; } }", "reject", "-", "12.7"},
+	{"a: for(;;){ (function(){ for(;;){ continue a; } }); }", "reject", "-", "12.7: not across a function boundary"},
+	{"typeof eval('a: { for (var i = 0; i < 2; i++) { continue a; } }')", "accept", "-", "the eval argument is a string: its SyntaxError is a run-time event"},
 	{"while(1){ (function(){ break; }); }", "reject", "-", "12.8"},
 	{"while(1){ (function(){ continue; }); }", "reject", "-", "12.7"},
 	{"a: a: ;", "reject", "-", "12.12: duplicate label"},
